@@ -150,3 +150,49 @@ Example C04_nonvacuous :
   dsorted s1 /\ dsorted s2 /\
   isect vmin s1 s2 = Some [(2, Fin 2); (4, Fin 1); (6, Fin 0)].
 Proof. cbv zeta. repeat split; try lia. Qed.
+
+(* ---------------- the visitor as GENERATED from the Python text (DenseOfflineGen.v) ----------------
+   Tie between the hand model deval and the source: DenseOfflineGen.v is GENERATED from
+   rtamt/semantics/stl/dense_time/offline/ast_visitor.py (and the `def M(a, b)` of offline/intersection.py) by
+   tools/py2coq_denseoffline.py on every build (fail-closed).  Every generated function equals the hand function the C04 theorems
+   are stated on; a list the generated visitor gen_deval returns is the list deval returns (equality, None included, for formulas
+   without sqrt / ln, whose domain errors the hand model does not contain).  Hand-modelled and pinned by digest: intersection(),
+   _append(), intersects(), the four window loops once/historically/always/eventually_timed_operation (DenseWin.v), visitVariable,
+   visitConstant, visit, and the dispatchers StlAstVisitor.visit / LtlAstVisitor.visit. *)
+From RV Require Import DenseIA PySem PyDense PyDenseOff DenseOfflineGen DenseOfflineGenCorrect.
+Theorem C04_generated_visitor :
+  forall (VS : Val) (AR : Arith VS),
+  (forall l r, gen_subtraction_operation AR l r = isect (a2 AR Sub) l r) /\ (forall l r, gen_and_operation AR l r = isect vmin l r) /\
+  (forall s, gen_visitAbs AR s = Some (dmap (a1 AR Abs) s)) /\ (forall s, gen_visitExp AR s = Some (dmap (a1 AR Exp) s)) /\
+  (forall s, gen_visitNot AR s = Some (dmap neg s)) /\ (forall s, gen_visitNegate AR s = Some (dmap neg s)) /\
+  (forall s, gen_visitSqrt AR s = if forallb (fun q => sqrt_ok AR (snd q)) s then Some (dmap (a1 AR Sqrt) s) else None) /\
+  (forall s, gen_visitLn AR s = if forallb (fun q => ln_ok AR (snd q)) s then Some (dmap (a1 AR Ln) s) else None) /\
+  (forall l r, gen_visitAddition AR l r = isect (a2 AR Add) l r) /\ (forall l r, gen_visitSubtraction AR l r = isect (a2 AR Sub) l r) /\
+  (forall l r, gen_visitMultiplication AR l r = isect (a2 AR Mul) l r) /\ (forall l r, gen_visitDivision AR l r = isect (a2 AR Div) l r) /\
+  (forall l r, gen_visitPow AR l r = isect (a2 AR Pow) l r) /\ (forall l r, gen_visitLog AR l r = isect (a2 AR Log) l r) /\
+  (forall l r, gen_visitAnd AR l r = isect vmin l r) /\ (forall l r, gen_visitOr AR l r = isect vmax l r) /\
+  (forall l r, gen_visitImplies AR l r = isect (fun a b => vmax (neg a) b) l r) /\
+  (forall l r, gen_visitIff AR l r = isect (fun a b => neg (a1 AR Abs (a2 AR Sub a b))) l r) /\
+  (forall l r, gen_visitXor AR l r = isect (fun a b => a1 AR Abs (a2 AR Sub a b)) l r) /\
+  (forall c l r, gen_visitPredicate AR c l r = option_map (ia_pred AR PStd c) (isect (a2 AR Sub) l r)) /\
+  (forall s, gen_visitOnce AR s = Some (once_op s)) /\ (forall s, gen_visitHistorically AR s = Some (hist_op s)) /\
+  (forall s, gen_visitEventually AR s = Some (ev_op s)) /\ (forall s, gen_visitAlways AR s = Some (alw_op s)) /\
+  (forall l r, gen_since_operation AR l r = since_op l r) /\ (forall l r, gen_until_operation AR l r = until_op l r) /\
+  (forall l r, gen_visitSince AR l r = since_op l r) /\ (forall l r, gen_visitUntil AR l r = until_op l r) /\
+  (forall l r b e, gen_since_timed_operation AR l r b e = since_timed_op l r b e) /\
+  (forall l r b e, gen_until_timed_operation AR l r b e = until_timed_op l r b e) /\
+  (forall s b e, gen_visitTimedOnce AR s b e = once_timed_op s b e) /\ (forall s b e, gen_visitTimedHistorically AR s b e = hist_timed_op s b e) /\
+  (forall s b e, gen_visitTimedEventually AR s b e = ev_timed_op s b e) /\ (forall s b e, gen_visitTimedAlways AR s b e = alw_timed_op s b e) /\
+  (forall l r b e, gen_visitTimedSince AR l r b e = since_timed_op l r b e) /\ (forall l r b e, gen_visitTimedUntil AR l r b e = until_timed_op l r b e) /\
+  ((forall x, a1 AR Neg x = neg x) ->
+   (forall p W r, gen_deval AR p W = Some r -> deval AR p W = Some r) /\
+   (forall p W, total_arith p = true -> gen_deval AR p W = deval AR p W)).
+Proof. exact @dense_offline_gen_refines. Qed.
+Print Assumptions C04_generated_visitor.
+
+(* the generated visitor on the non-vacuity example of C04_visitor: the same list *)
+Example C04_generated_visitor_nonvacuous :
+  let W : list (@dsig ExtZVal) := [[(0, Fin 3); (4, Fin 1); (9, Fin 5)]; [(0, Fin 2); (4, Fin 2); (6, Fin 0)]] in
+  let p : @formula ExtZVal := UntilT 1 3 (OnceT 1 2 (Pred CGeq (Var 0) (Const (Fin 2)))) (AlwT 0 2 (SinceT 0 3 (Var 1) (Pred CLt (Var 1) (Var 0)))) in
+  gen_deval ExtZArith p W = Some [(0, NegInf); (1, Fin 1); (3, Fin 0); (5, Fin (-1)); (10, Fin 0)].
+Proof. vm_compute. reflexivity. Qed.
